@@ -72,6 +72,16 @@ CLAIMED.update({
    technique="Coq proof (component semantics = textual definition; three-way compare = SPARQL operator table) + vm_compute correspondence",
    ref="4 (C01)"),
 })
+CLAIMED.update({
+ "C05": dict(
+   text="Partial by design: SPARQL evaluation is rdflib's and enters the model as data (the rows every declared query returns for every focus/value node, obtained by the harness by running the query directly "
+        "through rdflib with the SHACL-SPARQL pre-bindings). Coq proofs cover what pySHACL does with the rows: exactly the distinct solutions are kept (sound, complete up to equality of bindings, ?failure once), "
+        "one result each, focus/value/path from ?this/?value/?path, and each result's messages are the templates instantiated with that solution's own bindings, for any number of results; ASK validators report one result per rejected value node. "
+        "Correspondence over a template family of sh:sparql constraints and ASK/SELECT constraint components; forbidden syntax (MINUS, VALUES, SERVICE, AS ?this, nested SELECT) checked differentially.",
+   note=BASE_NOTE + "Not modelled: the SPARQL engine; the regex screens for forbidden syntax and the textual pre-binding of $PATH (differential only). Message substitution is compared against an independent reference renderer in the harness.",
+   technique="Coq proof over solution rows as data (oracle) + vm_compute correspondence + differential check of forbidden syntax",
+   ref="4 (C05)"),
+})
 NOT_YET = {}
 ALL = ["C%02d" % i for i in range(1, 21)]
 REASONS = {}
